@@ -1,7 +1,77 @@
-(** C04 — pinned statements.  Only [Theorem .. exact ..]. *)
-From Rumqtt Require Import Codec.Wire Codec.V4 Codec.WireProofs.
+(** C04 — pinned statements (MQTT 3.1.1 part).  Only [Theorem .. exact ..]. *)
+From Rumqtt Require Import Codec.Wire Codec.V4 Codec.WireProofs Codec.V4Proofs.
+
+Theorem c04_length_write_remaining : forall n r, n <= 268435455 ->
+  exists bs, write_remaining_length n = Ok bs /\ len bs = len_len n /\
+             vlen (bs ++ r) = Ok (len_len n, n).
+Proof. exact length_write_remaining. Qed.
+
+Theorem c04_write_remaining_length_too_long : forall n, 268435455 < n ->
+  write_remaining_length n = Err PayloadTooLong.
+Proof. exact write_remaining_length_too_long. Qed.
 
 Theorem c04_len_len_boundaries :
   len_len 0 = 1 /\ len_len 127 = 1 /\ len_len 128 = 2 /\ len_len 16383 = 2 /\ len_len 16384 = 3 /\
   len_len 2097151 = 3 /\ len_len 2097152 = 4 /\ len_len 268435455 = 4.
 Proof. exact len_len_boundaries. Qed.
+
+Theorem c04_rt_v4 : forall fl p maxo, wf_v4 fl p = true -> (fl = Client -> size fl p <= maxo) ->
+  exists bs, write fl maxo p = Ok (bs, size fl p) /\ len bs = size fl p /\
+    forall max rest, plen fl p <= max -> read fl (bs ++ rest) max = Packet (norm p) rest.
+Proof. exact rt_v4. Qed.
+
+Theorem c04_interop_v4 : forall fl1 fl2 p maxo,
+  wf_v4 fl1 p = true -> wf_v4 fl2 (norm p) = true -> (fl1 = Client -> size fl1 p <= maxo) ->
+  exists bs, write fl1 maxo p = Ok (bs, size fl1 p) /\
+    forall max rest, plen fl1 p <= max -> read fl2 (bs ++ rest) max = Packet (norm p) rest.
+Proof. exact interop_v4. Qed.
+
+Theorem c04_interop_client_to_broker : forall p maxo,
+  wf_v4 Client p = true -> wf_v4 Broker (norm p) = true -> (Client = Client -> size Client p <= maxo) ->
+  exists bs, write Client maxo p = Ok (bs, size Client p) /\
+    forall max rest, plen Client p <= max -> read Broker (bs ++ rest) max = Packet (norm p) rest.
+Proof. exact (interop_v4 Client Broker). Qed.
+
+Theorem c04_interop_broker_to_client : forall p maxo,
+  wf_v4 Broker p = true -> wf_v4 Client (norm p) = true -> (Broker = Client -> size Broker p <= maxo) ->
+  exists bs, write Broker maxo p = Ok (bs, size Broker p) /\
+    forall max rest, plen Broker p <= max -> read Client (bs ++ rest) max = Packet (norm p) rest.
+Proof. exact (interop_v4 Broker Client). Qed.
+
+Theorem c04_norm_idem : forall p, norm (norm p) = norm p.
+Proof. exact norm_idem. Qed.
+
+Theorem c04_write_client_too_large : forall p maxo, repr Client p = true -> maxo < size Client p ->
+  write Client maxo p = Err OutgoingPacketTooLarge.
+Proof. exact write_client_too_large. Qed.
+
+Theorem c04_wf_examples :
+  forallb (fun p => wf_v4 Client p && wf_v4 Broker p)
+    [ex_connect; ConnAck true 5; ex_publish; PubAck 1 0; PubRec 255 0; PubRel 256 0; PubComp 65535 0;
+     ex_subscribe; ex_suback; ex_unsubscribe; UnsubAck 9 []; PingReq; PingResp; Disconnect 0] = true
+  /\ wf_v4 Client ex_connect5 = true /\ wf_v4 Broker ex_connect5 = false
+  /\ wf_v4 Broker ex_publish_raw = true /\ wf_v4 Client ex_publish_raw = false
+  /\ wf_v4 Broker ex_suback_router = true /\ wf_v4 Client ex_suback_router = false
+  /\ wf_v4 Client (norm ex_suback_router) = true
+  /\ wf_v4 Broker (PubAck 3 4) = true /\ wf_v4 Broker (UnsubAck 3 [0; 1]) = true /\ wf_v4 Broker (Disconnect 4) = true.
+Proof. exact wf_examples. Qed.
+
+Theorem c04_asym_connect_level5 :
+  exists bs, write Client 100 ex_connect5 = Ok (bs, 14) /\ read Client bs 100 = Packet ex_connect5 []
+             /\ read Broker bs 100 = Malformed InvalidProtocolLevel [].
+Proof. exact asym_connect_level5. Qed.
+
+Theorem c04_asym_publish_topic :
+  exists bs, write Broker 0 ex_publish_raw = Ok (bs, 6) /\ read Broker bs 100 = Packet ex_publish_raw []
+             /\ read Client bs 100 = Malformed TopicNotUtf8 [].
+Proof. exact asym_publish_topic. Qed.
+
+Theorem c04_asym_suback_constructors :
+  exists bs, write Broker 0 ex_suback_router = Ok (bs, 6)
+             /\ read Broker bs 100 = Packet (SubAck 7 [RcSuccess AtLeastOnce; RcFailure]) []
+             /\ read Client bs 100 = Packet (SubAck 7 [RcSuccess AtLeastOnce; RcFailure]) [].
+Proof. exact asym_suback_constructors. Qed.
+
+Theorem c04_broker_connack_unreachable :
+  write Broker 0 (ConnAck false 6) = Panic P_UNREACHABLE /\ wf_v4 Broker (ConnAck false 6) = false.
+Proof. exact broker_connack_unreachable. Qed.
